@@ -27,6 +27,9 @@ FIRST_PASS_CAUGHT = {
     'C09-r4-unlogged-failure',
     # round 5 (machinery as it stood after round 4)
     'C12-r5-error-is-an-error',
+    # round 6 (machinery as it stood after round 5)
+    'C07-r6-shared-name-space-per-module-set', 'C08-r6-contained-cell-dropped-from-needed',
+    'C12-r6-contained-cell-dropped-from-needed',
 }
 
 NOTES = {
@@ -79,6 +82,12 @@ NOTES = {
     'C06-r5-self-reference-not-a-loop': 'diagonal and lower triangular systems (every loop a cell that refers to itself), one-cell systems',
     'C07-r5-reset-replaces-thread-local': "programs whose evaluations raise (unknown function, self-reference) next to other threads' evaluations",
     'C08-r5-lazy-if-untaken-branch': 'branch gadget: IF / CHOOSE / IFERROR over branch cells nobody else reads, the switch is an input',
+    'C01-r6-operator-array-fixup-memo': 'array formulas that compare or concatenate a whole range, SUMPRODUCT over a comparison; compare gadget (ranges of 1 / TRUE / 0 / FALSE with write pools of the same)',
+    'C03-r6-yaml-width-32768': 'a text constant as long as a cell can hold (32767 characters), words separated by runs of two blanks',
+    'C04-r6-sumif-sized-like-first-cell': 'SUMIF / COUNTIF / AVERAGEIF in the grammar, the sum range also in Excel\'s shorthand (named by its first cell, a cell beside the criteria range)',
+    'C05-r6-python-code-empty-after-failed-codegen': 'cells that cannot be compiled (and a reader of them) among the targets: every read of them has to raise, whatever was tried before; this workload reproduced D57 on the unmodified tree',
+    'C06-r6-reference-cell-needs-calc-only': 'first pass ended in HARNESS-ERROR (a pass calculated #VALUE!, the harness subtracted it): a pass that calculates something that is not a number is now a verdict (C06-B, C09 cycle workload)',
+    'C09-r6-iferror-catches-failing-precedent': 'IFERROR / ISERROR / IFNA over the failing cell among its dependants',
     'C09-r5-iteration-counter-rewound-at-the-end': 'fault-inside-a-cycle workload: a slowly settling loop unrelated to the failing cell; every evaluation that works is bounded and stops early only within the tolerance',
 }
 
@@ -86,7 +95,7 @@ NOTES = {
 def main():
     logdir = sys.argv[1]
     head = subprocess.check_output(['git', '-C', '/repo', 'log', '--format=%h', '-1']).decode().strip()
-    rows = {2: [], 3: [], 4: [], 5: []}
+    rows = {2: [], 3: [], 4: [], 5: [], 6: []}
     for meta_path in sorted(glob.glob(os.path.join(VERIF, 'seeded', '*', 'meta.json'))):
         name = os.path.basename(os.path.dirname(meta_path))
         log_path = os.path.join(logdir, name + '.log')
@@ -122,7 +131,7 @@ def main():
                  'C03-pickle-drops-range-reference-value': None}.get(name)
         if other and not tags:
             result += f'; caught by {other} quick (see tools/try_seeded.sh <dir> {other})'
-        rnd = next((k_ for k_ in (5, 4, 3, 2) if f'-r{k_}-' in name), 1)
+        rnd = next((k_ for k_ in (6, 5, 4, 3, 2) if f'-r{k_}-' in name), 1)
         meta.update({
             'property': prop,
             'written_by': 'independent sub-agent given only the property text and a scratch worktree',
@@ -152,7 +161,7 @@ def main():
             note = NOTES.get(name, '')
             rows[rnd].append(f'| `seeded/{name}` | {needs} | {fp} | {result}'
                              + (f' - {note}' if note and fp == 'missed' else '') + ' |')
-    for rnd in (2, 3, 4, 5):
+    for rnd in (2, 3, 4, 5, 6):
         print(f'\n#### Round {rnd}\n')
         print('| change | needs (from the author\'s meta.json) | first pass | now |')
         print('|--------|--------------------------------------|------------|-----|')
